@@ -270,7 +270,24 @@ def decorated_state(ctx) -> None:
     U(ctx, 'C13.decorated', init, 'self._state: typing.Optional[State] = None', [], 'a fresh actor is untrained', 'init:untrained', inlined=False, siblings=False)
 
 
+def functor_actor(ctx) -> None:
+    """Every execution of a functor works on an actor freshly built from the builder (then preset with this execution's
+    state/params): nothing of a previous execution - a loaded state, preset params - survives into the next one."""
+    prog = ctx.prog
+    ex = prog.func(f'{USER}:Functor.execute')
+    body = [core.src(x) for x in ex.body if not (isinstance(x, ast.Expr) and isinstance(x.value, ast.Constant))]
+    va = ex.node.args.vararg.arg if ex.node.args.vararg else 'args'
+    ctx.check(body == [f'return self.action(self.builder(), *{va})'], 'C13.functor', ex, f'Functor.execute = action(builder(), *args) with a fresh actor per call ({body})', ex.node, key='Functor.execute')
+    fc = prog.cls(f'{USER}:Functor')
+    cached = [m for m, node in fc.methods.items() if any(d.split('.')[-1] in ('cached_property', 'lru_cache', 'cache') for d in core.decorator_names(node))]
+    ctx.check(not cached, 'C13.functor', fc.ref, f'a functor memoises nothing (found {cached})', key='Functor:no-memo', loc=fc.module.relpath)
+    sp = prog.func(f'{TASK}:Spec.__getnewargs_ex__')
+    ret = next((r for r in core.walk_local(sp.node) if isinstance(r, ast.Return)), None)
+    ctx.check(ret is not None and core.src(ret.value) == '((self.actor, *self.args), dict(self.kwargs))', 'R-PICKLE', sp, 'a pickled builder ships all its keyword arguments (a None that overrides a default included)', sp.node, key='Spec:getnewargs-all')
+
+
 def run(ctx) -> None:
+    functor_actor(ctx)
     decorated_state(ctx)
     serializers(ctx)
     bracket(ctx)
